@@ -1,5 +1,6 @@
 import SsoSpec.Lemmas.Singleflight
 import SsoModel.SfWrappers
+import SsoSpec.Lemmas.Keys
 import Generated.Facts
 
 /-!
@@ -105,20 +106,8 @@ namespace Sso.SfWrappers
 the composite key is injective as soon as endpoint names contain no `/`. -/
 theorem C16_composite_key_injective {α : Type} (slash : α) (ep₁ ep₂ k₁ k₂ : List α)
     (h₁ : slash ∉ ep₁) (h₂ : slash ∉ ep₂)
-    (h : compositeKey slash ep₁ k₁ = compositeKey slash ep₂ k₂) : ep₁ = ep₂ ∧ k₁ = k₂ := by
-  unfold compositeKey at h
-  induction ep₁ generalizing ep₂ with
-  | nil =>
-    cases ep₂ with
-    | nil => simpa using h
-    | cons b t => simp at h; exact absurd (h.1 ▸ List.mem_cons_self) h₂
-  | cons a t ih =>
-    cases ep₂ with
-    | nil => simp at h; exact absurd (h.1 ▸ List.mem_cons_self) h₁
-    | cons b t' =>
-      simp only [List.cons_append, List.cons.injEq] at h
-      have := ih t' (fun hm => h₁ (List.mem_cons_of_mem _ hm)) (fun hm => h₂ (List.mem_cons_of_mem _ hm)) h.2
-      exact ⟨by rw [h.1, this.1], this.2⟩
+    (h : compositeKey slash ep₁ k₁ = compositeKey slash ep₂ k₂) : ep₁ = ep₂ ∧ k₁ = k₂ :=
+  append_sep_inj slash ep₁ ep₂ k₁ k₂ h₁ h₂ h
 
 /-- The endpoint literals used by both middlewares (regenerated from the source) contain no `/`
 and are pairwise distinct within each service. -/
@@ -137,55 +126,6 @@ theorem C16_key_shapes :
        ("ValidateGroupMembership", "fmt.Sprintf(\"%s:%s\",email,strings.Join(allowedGroups,\",\"))"),
        ("Revoke", "s.AccessToken"), ("RefreshAccessToken", "refreshToken")] ∧
     Sso.Generated.sf_do_key = "fmt.Sprintf(\"%s/%s\",endpoint,key)" := by decide
-
-theorem joinWith_cons_cons {α : Type} (comma : α) (g h : List α) (t : List (List α)) :
-    joinWith comma (g :: h :: t) = g ++ comma :: joinWith comma (h :: t) := rfl
-
-theorem append_sep_inj {α : Type} (sep : α) (a b x y : List α) (ha : sep ∉ a) (hb : sep ∉ b)
-    (h : a ++ sep :: x = b ++ sep :: y) : a = b ∧ x = y :=
-  C16_composite_key_injective sep a b x y ha hb h
-
-/-- `strings.Join(·, ",")` is injective on lists of non-empty, comma-free names. -/
-theorem joinWith_injective {α : Type} (comma : α) (l₁ l₂ : List (List α))
-    (h₁ : ∀ g ∈ l₁, g ≠ [] ∧ comma ∉ g) (h₂ : ∀ g ∈ l₂, g ≠ [] ∧ comma ∉ g)
-    (h : joinWith comma l₁ = joinWith comma l₂) : l₁ = l₂ := by
-  induction l₁ generalizing l₂ with
-  | nil =>
-    cases l₂ with
-    | nil => rfl
-    | cons g t =>
-      have hg := (h₂ g List.mem_cons_self).1
-      cases t with
-      | nil => simp [joinWith] at h; exact absurd h hg
-      | cons g' t' => rw [joinWith_cons_cons] at h; simp [joinWith] at h
-  | cons g t ih =>
-    cases l₂ with
-    | nil =>
-      have hg := (h₁ g List.mem_cons_self).1
-      cases t with
-      | nil => simp [joinWith] at h; exact absurd h hg
-      | cons g' t' => rw [joinWith_cons_cons] at h; simp [joinWith] at h
-    | cons g₂ t₂ =>
-      have hg := h₁ g List.mem_cons_self
-      have hg₂ := h₂ g₂ List.mem_cons_self
-      cases t with
-      | nil =>
-        cases t₂ with
-        | nil => simp [joinWith] at h; rw [h]
-        | cons g' t' =>
-          rw [joinWith_cons_cons] at h; simp only [joinWith] at h
-          exact absurd (h ▸ List.mem_append_right g₂ List.mem_cons_self) hg.2
-      | cons g' t' =>
-        cases t₂ with
-        | nil =>
-          rw [joinWith_cons_cons] at h; simp only [joinWith] at h
-          exact absurd (h.symm ▸ List.mem_append_right g List.mem_cons_self) hg₂.2
-        | cons g'' t'' =>
-          rw [joinWith_cons_cons, joinWith_cons_cons] at h
-          have := append_sep_inj comma g g₂ _ _ hg.2 hg₂.2 h
-          have ih' := ih (g'' :: t'') (fun x hx => h₁ x (List.mem_cons_of_mem _ hx))
-            (fun x hx => h₂ x (List.mem_cons_of_mem _ hx)) this.2
-          rw [this.1, ih']
 
 /-- Membership questions merge only for the same user and the same (sorted) group list — **provided**
 the email contains no `:` and group names are non-empty and comma-free. -/
